@@ -396,6 +396,13 @@ class StmtMixin:
         if self.spec is not None and hasattr(self.spec, "havoc_ghost"):
             h.ghost = dict(h.ghost)
             self.spec.havoc_ghost(self, h)
+        # components that verified code writes only when it allocates an object (class tag, ownership tag, tuple contents):
+        # everything that existed at loop entry is untouched
+        x_ = z3.Const("x!ao", I)
+        for c in ("g:owner", "fld:__class__", "fld:__cause__", "t_len", "t_item"):
+            if c in comps and c in h.heap and not getattr(self, "_last_dry_had_havoc", False):
+                h.assume(z3.ForAll([x_], z3.Implies(z3.And(0 <= x_, x_ < old_alloc), z3.Select(h.heap[c], x_) == z3.Select(st.heap[c], x_)),
+                                   patterns=[z3.Select(h.heap[c], x_)]))
         if self.spec is not None and self.spec.check_guarantee:
             open_changed -= {"w_dict", "mycalls"}
             h.loopvars = dict(h.loopvars)
@@ -424,8 +431,11 @@ class StmtMixin:
                 h.seg = seg
             if open_changed:
                 old, new = HeapView(h.seg), HeapView(h.heap)
+                wanted = set(getattr(self.spec, "uses_invariants", ()) or ())
                 for entry in self.reg.guarantees:
                     fp = entry[2] if len(entry) > 2 else None
+                    if len(entry) > 3 and entry[3].get("lazy") and entry[0] not in wanted:
+                        continue
                     if fp is None or (set(fp) & open_changed):
                         h.assume(entry[1](old, new))
                 h.assume(new.alloc >= old.alloc)
